@@ -4,11 +4,11 @@ package main
 // registered from this harness through the public KernRegistry. Method `run` executes the little
 // program passed in args["prog"] (';'-separated steps) through the real sandbox / bridge context:
 //
-//	get K            ctx.Get                                   observes v<n> | -
+//	get K            ctx.Get                                   observes <n> | - (never written) | x (deleted)
 //	put K V          ctx.Put(K, "v<V>")   (V >= 2)
 //	del K            ctx.Del
 //	scan LO HI N     ctx.Select(LO, HI), at most N calls of Next, Close          observes the items
-//	copy S D         v := Get(S); found -> Put(D, v) else Del(D)                 (data flow read -> write)
+//	copy S D         v := Get(S); found -> Put(D, v); deleted -> Put(D, "v1"); never written -> Del(D)   (data flow read -> write)
 //	cnt LO HI N D    c := number of items of scan LO HI N; Put(D, "v<2+c>")       (data flow scan -> write)
 //	xfer T A         ctx.Transfer(initiator, address of user T, A)
 //	ev E             ctx.AddEvent(event named "e<E>")
@@ -28,6 +28,7 @@ import (
 	"strings"
 
 	"github.com/xuperchain/xupercore/kernel/contract"
+	"github.com/xuperchain/xupercore/kernel/contract/sandbox"
 	"github.com/xuperchain/xupercore/protos"
 )
 
@@ -100,7 +101,9 @@ func (c *xvc) run(ctx contract.KContext) (*contract.Response, error) {
 		switch w[0] {
 		case "get":
 			v, err := ctx.Get(bucket, []byte(w[1]))
-			if err != nil {
+			if err == sandbox.ErrHasDel {
+				out = append(out, "x")
+			} else if err != nil {
 				out = append(out, "-")
 			} else {
 				out = append(out, strconv.Itoa(valNo(v)))
@@ -122,7 +125,12 @@ func (c *xvc) run(ctx contract.KContext) (*contract.Response, error) {
 			out = append(out, "["+strings.Join(items, ",")+"]")
 		case "copy":
 			v, err := ctx.Get(bucket, []byte(w[1]))
-			if err != nil {
+			if err == sandbox.ErrHasDel {
+				out = append(out, "x")
+				if err := ctx.Put(bucket, []byte(w[2]), valBytes("1")); err != nil {
+					return nil, err
+				}
+			} else if err != nil {
 				out = append(out, "-")
 				if err := ctx.Del(bucket, []byte(w[2])); err != nil {
 					return nil, err
